@@ -35,13 +35,53 @@ class Route(Animal):
         return 2
 
 
+@dataclass
+class Basket(Animal):
+    """a serialisable object that is FALSY when it holds nothing (it defines __len__): an object like any other"""
+    items: int = 0
+
+    def __len__(self):
+        return self.items
+
+    def to_json(self):
+        return {**super().to_json(), "name": self.name, "age": self.age, "items": self.items}
+
+    @classmethod
+    def _from_json(cls, data, **kwargs):
+        return cls(data["name"], data["age"], data["items"])
+
+
+@dataclass
+class Switch(Animal):
+    """... or because it defines __bool__"""
+    on: bool = False
+
+    def __bool__(self):
+        return self.on
+
+    def to_json(self):
+        return {**super().to_json(), "name": self.name, "age": self.age, "on": self.on}
+
+    @classmethod
+    def _from_json(cls, data, **kwargs):
+        return cls(data["name"], data["age"], data["on"])
+
+
 # user-registered external types that are related by inheritance, base registered first: each keeps its own pair
 import datetime
+import fractions
 from krrood.adapters.json_serializer import JSONSerializableTypeRegistry
 JSONSerializableTypeRegistry().register(datetime.date, lambda o: {JSON_TYPE_NAME: "datetime.date", "value": o.isoformat()},
                                         lambda d: datetime.date.fromisoformat(d["value"]))
 JSONSerializableTypeRegistry().register(datetime.datetime, lambda o: {JSON_TYPE_NAME: "datetime.datetime", "value": o.isoformat()},
                                         lambda d: datetime.datetime.fromisoformat(d["value"]))
+
+# registered types with falsy values
+JSONSerializableTypeRegistry().register(fractions.Fraction, lambda o: {JSON_TYPE_NAME: "fractions.Fraction", "value": [o.numerator, o.denominator]},
+                                        lambda d: fractions.Fraction(*d["value"]))
+JSONSerializableTypeRegistry().register(datetime.timedelta, lambda o: {JSON_TYPE_NAME: "datetime.timedelta", "value": o.total_seconds()},
+                                        lambda d: datetime.timedelta(seconds=d["value"]))
+
 
 @dataclass
 class Sensor(SubclassJSONSerializer):
@@ -79,6 +119,8 @@ LEAVES = [None, True, False, 0, -1, 1, 2 ** 63, -2 ** 64, 10 ** 300, 0.0, -0.0, 
 OBJECTS = [uuid.UUID(int=0), uuid.UUID("12345678-1234-5678-1234-567812345678"), uuid.uuid4(),
            Sensor("camera"), Sensor("test.test_utils.test_json_serializer.Dog", "krrood.adapters.json_serializer.SubclassJSONSerializer"),
            _A.Point(1), _B.Point(2), _A.NamedPoint(3), _B.NamedPoint(4), _A.Point(5),
+           Basket("empty", 1, 0), Basket("full", 1, 3), Switch("off", 1, False), Switch("on", 1, True),
+           fractions.Fraction(0), fractions.Fraction(1, 3), datetime.timedelta(0), datetime.timedelta(seconds=90),
            Route("r", 5), datetime.date(2020, 2, 29), datetime.datetime(2020, 2, 29, 12, 30, 1),
            Puppy("p", 0, "lab"), FrenchBulldog("f", 1, "fb", True), Animal("a", 1), Dog("d", 2, "lab"), Dog("d", 0), Bulldog("b", 3, "bull", False), Bulldog("", 0), Cat("c", 4, 7), Cat("é", -1)]
 
